@@ -238,4 +238,219 @@ theorem transitionTo_killing (c : Cfg) (s : SObj) (hs : s.label ≠ .killed) : (
         rw [this, hK]; exact hx.2.2.1
   · exact hfe _ _
 
+
+/-! ### bookkeeping functions: everything but the action table and the interrupt action is untouched -/
+
+/-- `d` agrees with `c` on everything except (possibly) the action table and the interrupt action -/
+structure Rest (c d : Cfg) : Prop where
+  st : d.st = c.st
+  wfs : d.wfs = c.wfs
+  pc : d.pc = c.pc
+  stepping : d.stepping = c.stepping
+  pausing : d.pausing = c.pausing
+  killing : d.killing = c.killing
+  paused : d.paused = c.paused
+  pfs : d.pfs = c.pfs
+  trace : d.trace = c.trace
+  closed : d.closed = c.closed
+
+theorem Rest.rfl' (c : Cfg) : Rest c c := ⟨rfl, rfl, rfl, rfl, rfl, rfl, rfl, rfl, rfl, rfl⟩
+theorem Rest.trans {a b c : Cfg} (h1 : Rest a b) (h2 : Rest b c) : Rest a c :=
+  ⟨h2.st.trans h1.st, h2.wfs.trans h1.wfs, h2.pc.trans h1.pc, h2.stepping.trans h1.stepping, h2.pausing.trans h1.pausing,
+   h2.killing.trans h1.killing, h2.paused.trans h1.paused, h2.pfs.trans h1.pfs, h2.trace.trans h1.trace,
+   h2.closed.trans h1.closed⟩
+
+theorem setActionStatus_rest (c : Cfg) (i s) : Rest c (setActionStatus c i s) ∧ (setActionStatus c i s).interrupt = c.interrupt := by
+  unfold setActionStatus; split <;> exact ⟨⟨rfl, rfl, rfl, rfl, rfl, rfl, rfl, rfl, rfl, rfl⟩, rfl⟩
+theorem cancelAction_rest (c : Cfg) (i) : Rest c (cancelAction c i) ∧ (cancelAction c i).interrupt = c.interrupt := by
+  unfold cancelAction; split
+  · exact setActionStatus_rest ..
+  · exact ⟨Rest.rfl' c, rfl⟩
+theorem setInterrupt_rest (c : Cfg) (n) : Rest c (setInterrupt c n) ∧ (setInterrupt c n).interrupt = n := by
+  unfold setInterrupt
+  split
+  · exact ⟨Rest.trans (cancelAction_rest c _).1 ⟨rfl, rfl, rfl, rfl, rfl, rfl, rfl, rfl, rfl, rfl⟩, rfl⟩
+  · exact ⟨⟨rfl, rfl, rfl, rfl, rfl, rfl, rfl, rfl, rfl, rfl⟩, rfl⟩
+theorem cancelInterrupt_rest (c : Cfg) : Rest c (cancelInterrupt c) := by
+  unfold cancelInterrupt; split
+  · exact (cancelAction_rest c _).1
+  · exact Rest.rfl' c
+theorem setInterruptFromExc_rest (c : Cfg) (k n) : Rest c (setInterruptFromExc c k n) := by
+  unfold setInterruptFromExc
+  exact Rest.trans (cancelInterrupt_rest c) ⟨rfl, rfl, rfl, rfl, rfl, rfl, rfl, rfl, rfl, rfl⟩
+
+/-- the action installed by `_set_interrupt_action_from_exception` is fresh and pending -/
+theorem setInterruptFromExc_new (c : Cfg) (k : AKind) (n : Nat) :
+    (setInterruptFromExc c k n).interrupt = some c.actions.length ∧
+    actionStatus (setInterruptFromExc c k n) c.actions.length = .pending := by
+  have hlen := cancelInterrupt_len c
+  unfold setInterruptFromExc
+  dsimp only
+  have hget : ((cancelInterrupt c).actions ++ [({ kind := k, cookie := n, status := .pending } : Action)])[c.actions.length]? =
+      some { kind := k, cookie := n, status := .pending } := by
+    rw [List.getElem?_append_right (by rw [hlen]; exact Nat.le_refl _)]
+    simp [hlen]
+  exact ⟨by rw [hlen], by simp [actionStatus, hget]⟩
+
+/-- cancelling a pending action leaves it cancelled -/
+theorem cancelAction_self (c : Cfg) (i : Nat) (h : actionStatus c i = .pending ∨ actionStatus c i = .cancelled) :
+    actionStatus (cancelAction c i) i = .cancelled := by
+  unfold cancelAction
+  rcases h with h | h
+  · rw [if_pos h]
+    unfold setActionStatus
+    cases ha : c.actions[i]? with
+    | none => simp [actionStatus, ha] at h
+    | some a =>
+      have hlt : i < c.actions.length := (List.getElem?_eq_some_iff.mp ha).1
+      simp [actionStatus, setAt, hlt]
+  · have : ¬ actionStatus c i = .pending := by rw [h]; intro g; cases g
+    rw [if_neg this]; exact h
+
+/-- what the three `except` clauses of `Process.step` leave behind -/
+theorem prepare_rest (c : Cfg) (r : StepEnd) : Rest c (prepare c r).1 := by
+  unfold prepare
+  split
+  · exact (setInterrupt_rest ..).1
+  · exact Rest.rfl' c
+  · split
+    · exact Rest.rfl' c
+    · exact setInterruptFromExc_rest ..
+  · exact (setInterrupt_rest ..).1
+
+theorem prepare_snd (c : Cfg) (r : StepEnd) :
+    (prepare c r).2 = (match r with | .next s => s | .interruption _ => none | .exception e => some (.excepted e)) := by
+  unfold prepare
+  split
+  · rfl
+  · rfl
+  · split <;> rfl
+  · rfl
+
+/-- the interrupt action is still runnable: pending, or cancelled by a `play()` -/
+def ActOk (c : Cfg) : Prop := ∀ i, c.interrupt = some i → actionStatus c i = .pending ∨ actionStatus c i = .cancelled
+
+theorem prepare_actOk (c : Cfg) (r : StepEnd) (h : ActOk c) : ActOk (prepare c r).1 := by
+  have hnone : ∀ d : Cfg, ActOk (setInterrupt d none) := by
+    intro d i hi; rw [(setInterrupt_rest d none).2] at hi; cases hi
+  unfold prepare
+  split
+  · exact hnone c
+  · exact h
+  · rename_i cookie
+    split
+    · exact h
+    · intro i hi
+      obtain ⟨h1, h2⟩ := setInterruptFromExc_new c (kindOfCookie c cookie) cookie
+      have hi' : (setInterruptFromExc c (kindOfCookie c cookie) cookie).interrupt = some i := hi
+      rw [h1] at hi'; cases hi'
+      exact Or.inl h2
+  · exact hnone c
+
+/-- the three possible results of the end of a step: the state object is the old one (and no waiting future changed),
+or a terminal one, or the one the step asked for (and the waiting futures are as `exitState` left them) -/
+def StepRes (c d : Cfg) (next : Option SObj) : Prop :=
+  (d.st = c.st ∧ d.wfs = c.wfs) ∨ terminal d.st.label = true ∨
+  (∃ s, next = some s ∧ d.st = s ∧ d.wfs = (exitState c).wfs)
+
+theorem StepRes.congr {c d e : Cfg} {next : Option SObj} (h : StepRes c d next) (h1 : e.st = d.st) (h2 : e.wfs = d.wfs) :
+    StepRes c e next := by
+  rcases h with ⟨a, b⟩ | a | ⟨s, a, b, d'⟩
+  · exact Or.inl ⟨h1.trans a, h2.trans b⟩
+  · exact Or.inr (Or.inl (by rw [h1]; exact a))
+  · exact Or.inr (Or.inr ⟨s, a, h1.trans b, h2.trans d'⟩)
+
+theorem transitionTo_stepRes (c : Cfg) (s : SObj) : StepRes c (transitionTo c s) (some s) := by
+  rcases transitionTo_res c s with ⟨e, he⟩ | ⟨a, b, _⟩
+  · exact Or.inr (Or.inl (by rw [he]; simp [SObj.label, terminal, allowed]))
+  · exact Or.inr (Or.inr ⟨s, rfl, a, b⟩)
+
+theorem optTrans_stepRes (c : Cfg) (next : Option SObj) :
+    StepRes c (match next with | some s => transitionTo c s | none => c) next ∧
+    Core c (match next with | some s => transitionTo c s | none => c) := by
+  cases next with
+  | none => exact ⟨Or.inl ⟨rfl, rfl⟩, Core.rfl' c⟩
+  | some s => exact ⟨transitionTo_stepRes c s, transitionTo_core c s⟩
+
+theorem runAction_spec (c : Cfg) (i : Nat) (next : Option SObj) (hp : actionStatus c i = .pending) :
+    (runAction c i next).pc = c.pc ∧ (runAction c i next).trace = c.trace ∧ StepRes c (runAction c i next) next := by
+  unfold runAction
+  split
+  · exact ⟨rfl, rfl, Or.inl ⟨rfl, rfl⟩⟩
+  · rename_i a ha
+    have hs : a.status = .pending := by simpa [actionStatus, ha] using hp
+    simp only [hs, ne_eq, not_true_eq_false, if_false]
+    split
+    · cases next with
+      | none =>
+        have hr := (setActionStatus_rest (doPauseHooks c) i .done).1
+        exact ⟨hr.pc, hr.trace, Or.inl ⟨hr.st, hr.wfs⟩⟩
+      | some s =>
+        have hr := (setActionStatus_rest (doPauseHooks (transitionTo c s)) i .done).1
+        have h2 := transitionTo_core c s
+        refine ⟨?_, ?_, ?_⟩
+        · show (setActionStatus (doPauseHooks (transitionTo c s)) i .done).pc = c.pc
+          rw [hr.pc]; exact h2.pc
+        · show (setActionStatus (doPauseHooks (transitionTo c s)) i .done).trace = c.trace
+          rw [hr.trace]; exact h2.trace
+        · exact (transitionTo_stepRes c s).congr (e := setActionStatus (doPauseHooks (transitionTo c s)) i .done)
+            (by rw [hr.st]; rfl) (by rw [hr.wfs]; rfl)
+    · have hr := (setActionStatus_rest { transitionTo c .killed with killing := none } i .done).1
+      have hc := transitionTo_core c .killed
+      refine ⟨?_, ?_, Or.inr (Or.inl ?_)⟩
+      · rw [hr.pc]; exact hc.pc
+      · rw [hr.trace]; exact hc.trace
+      · rw [hr.st]
+        show terminal (transitionTo c .killed).st.label = true
+        rcases transitionTo_label c .killed with h | h <;> rw [h] <;> simp [SObj.label, terminal, allowed]
+
+theorem dispatch_spec (c : Cfg) (next : Option SObj) (hact : ActOk c) :
+    (dispatch c next).pc = c.pc ∧ (dispatch c next).trace = c.trace ∧ StepRes c (dispatch c next) next := by
+  unfold dispatch
+  split
+  · exact ⟨rfl, rfl, Or.inl ⟨rfl, rfl⟩⟩
+  · split
+    · rename_i i hi
+      split
+      · rename_i hne
+        rcases hact i hi with h | h
+        · exact runAction_spec c i next h
+        · exact absurd h hne
+      · obtain ⟨h1, h2⟩ := optTrans_stepRes c next
+        exact ⟨h2.pc, h2.trace, h1⟩
+    · obtain ⟨h1, h2⟩ := optTrans_stepRes c next
+      exact ⟨h2.pc, h2.trace, h1⟩
+
+theorem finally_rest (c : Cfg) : Rest { c with stepping := false } (finally_ c) ∧ (finally_ c).interrupt = none := by
+  unfold finally_; exact setInterrupt_rest _ _
+
+theorem exitState_wfs_congr (c d : Cfg) (h1 : d.st = c.st) (h2 : d.wfs = c.wfs) : (exitState d).wfs = (exitState c).wfs := by
+  unfold exitState
+  rw [h1]
+  split
+  · dsimp only; rw [h2]; split <;> simp [h2]
+  · exact h2
+
+/-- **the end of a step, as one statement** (for a runnable interrupt action, which is what every reachable
+configuration has): the step is over and no interrupt action is installed any more; the program counter and the trace of
+user calls are untouched; the state object is the old one, a terminal one, or the one the step returned. -/
+theorem endOfStep_spec (c : Cfg) (r : StepEnd) (hact : ActOk c) :
+    (endOfStep c r).stepping = false ∧ (endOfStep c r).interrupt = none ∧ (endOfStep c r).pc = c.pc ∧
+    (endOfStep c r).trace = c.trace ∧
+    StepRes c (endOfStep c r) (match r with | .next s => s | .interruption _ => none | .exception e => some (.excepted e)) := by
+  have hr := prepare_rest c r
+  have hd := dispatch_spec (prepare c r).1 (prepare c r).2 (prepare_actOk c r hact)
+  have hf := finally_rest (dispatch (prepare c r).1 (prepare c r).2)
+  unfold endOfStep
+  dsimp only
+  refine ⟨hf.1.stepping, hf.2, ?_, ?_, ?_⟩
+  · rw [hf.1.pc]; exact hd.1.trans hr.pc
+  · rw [hf.1.trace]; exact hd.2.1.trans hr.trace
+  · rw [← prepare_snd c r]
+    have h3 := hd.2.2.congr (e := finally_ (dispatch (prepare c r).1 (prepare c r).2)) hf.1.st hf.1.wfs
+    rcases h3 with ⟨a, b⟩ | a | ⟨s, a, b, d'⟩
+    · exact Or.inl ⟨a.trans hr.st, b.trans hr.wfs⟩
+    · exact Or.inr (Or.inl a)
+    · exact Or.inr (Or.inr ⟨s, a, b, d'.trans (exitState_wfs_congr c _ hr.st hr.wfs)⟩)
+
 end PMF.H6
